@@ -814,3 +814,168 @@ impl NamedCal {
 pub fn get_calendar_by_name_py(name: &str) -> PyResult<Cal> {
     get_calendar_by_name(name)
 }
+
+/// Verification hooks (compiled only with `--cfg rateslib_verif`): the Python-facing methods of the three
+/// calendar classes, callable from Rust; a raised exception is reported as `Err`.
+#[cfg(rateslib_verif)]
+pub mod verif_hooks {
+    use super::*;
+
+    fn msg(e: PyErr) -> String {
+        Python::with_gil(|py| {
+            if e.is_instance_of::<PyValueError>(py) {
+                "ValueError".to_string()
+            } else {
+                "Exception".to_string()
+            }
+        })
+    }
+
+    /// Arguments of the date methods (each method reads the ones it declares).
+    pub struct DateArgs {
+        pub date: NaiveDateTime,
+        pub days: i8,
+        pub months: i32,
+        pub modifier: Modifier,
+        pub roll: RollDay,
+        pub settlement: bool,
+    }
+
+    macro_rules! table {
+        ($T:ty, $date:ident, $pred:ident, $range:ident, $view:ident, $eq:ident, $json:ident, $state:ident) => {
+            pub fn $date(c: &$T, f: &str, a: &DateArgs) -> Result<NaiveDateTime, String> {
+                match f {
+                    "add_days" => c.add_days_py(a.date, a.days, a.modifier, a.settlement),
+                    "add_bus_days" => c.add_bus_days_py(a.date, a.days, a.settlement),
+                    "add_months" => {
+                        c.add_months_py(a.date, a.months, a.modifier, a.roll, a.settlement)
+                    }
+                    "roll" => c.roll_py(a.date, a.modifier, a.settlement),
+                    "lag" => Ok(c.lag_py(a.date, a.days, a.settlement)),
+                    _ => Err(PyValueError::new_err("unknown method")),
+                }
+                .map_err(msg)
+            }
+            pub fn $pred(c: &$T, f: &str, date: NaiveDateTime) -> Result<bool, String> {
+                match f {
+                    "is_bus_day" => Ok(c.is_bus_day_py(date)),
+                    "is_non_bus_day" => Ok(c.is_non_bus_day_py(date)),
+                    "is_settlement" => Ok(c.is_settlement_py(date)),
+                    _ => Err("unknown method".to_string()),
+                }
+            }
+            pub fn $range(
+                c: &$T,
+                f: &str,
+                start: NaiveDateTime,
+                end: NaiveDateTime,
+            ) -> Result<Vec<NaiveDateTime>, String> {
+                match f {
+                    "bus_date_range" => c.bus_date_range_py(start, end),
+                    "cal_date_range" => c.cal_date_range_py(start, end),
+                    _ => Err(PyValueError::new_err("unknown method")),
+                }
+                .map_err(msg)
+            }
+            /// the `holidays` and `week_mask` getters (the latter sorted)
+            pub fn $view(c: &$T) -> Result<(Vec<NaiveDateTime>, Vec<u8>), String> {
+                let mut w: Vec<u8> = c.week_mask().map_err(msg)?.into_iter().collect();
+                w.sort();
+                Ok((c.holidays().map_err(msg)?, w))
+            }
+            pub fn $eq(c: &$T, other: CalType) -> bool {
+                c.__eq__(other)
+            }
+            pub fn $json(c: &$T) -> Result<String, String> {
+                c.to_json_py().map_err(msg)
+            }
+            /// `__getstate__` of `c` applied by `__setstate__` to `onto` (as pickle does after `__new__`)
+            pub fn $state(c: &$T, onto: &mut $T) -> Result<(), String> {
+                Python::with_gil(|py| {
+                    let st = c.__getstate__(py).map_err(msg)?;
+                    onto.__setstate__(st).map_err(msg)
+                })
+            }
+        };
+    }
+    table!(Cal, cal_date, cal_pred, cal_range, cal_view, cal_eq, cal_json, cal_state);
+    table!(
+        UnionCal,
+        union_date,
+        union_pred,
+        union_range,
+        union_view,
+        union_eq,
+        union_json,
+        union_state
+    );
+    table!(
+        NamedCal,
+        named_date,
+        named_pred,
+        named_range,
+        named_view,
+        named_eq,
+        named_json,
+        named_state
+    );
+
+    /// `Cal.__new__(*Cal.__getnewargs__())`
+    pub fn cal_renew(c: &Cal) -> Result<Cal, String> {
+        let (h, w) = c.__getnewargs__().map_err(msg)?;
+        Cal::new_py(h, w).map_err(msg)
+    }
+    pub fn union_renew(c: &UnionCal) -> Result<UnionCal, String> {
+        let (a, b) = c.__getnewargs__().map_err(msg)?;
+        UnionCal::new_py(a, b).map_err(msg)
+    }
+    pub fn named_renew(c: &NamedCal) -> Result<NamedCal, String> {
+        let (n,) = c.__getnewargs__().map_err(msg)?;
+        NamedCal::new_py(n).map_err(msg)
+    }
+    pub fn cal_new(holidays: Vec<NaiveDateTime>, week_mask: Vec<u8>) -> Result<Cal, String> {
+        Cal::new_py(holidays, week_mask).map_err(msg)
+    }
+    pub fn union_parts(c: &UnionCal) -> (Vec<Cal>, Option<Vec<Cal>>) {
+        (c.calendars(), c.settlement_calendars())
+    }
+    pub fn named_parts(c: &NamedCal) -> (String, UnionCal) {
+        (c.name(), c.union_cal())
+    }
+    pub fn named_new(name: &str) -> Result<NamedCal, String> {
+        NamedCal::new_py(name.to_string()).map_err(msg)
+    }
+    pub fn named_calendar(name: &str) -> Result<Cal, String> {
+        get_calendar_by_name_py(name).map_err(msg)
+    }
+    /// `Convention.__new__(*c.__getnewargs__())` then `__setstate__(c.__getstate__())`; also the bare `__new__` result
+    pub fn convention_pickle(c: &Convention) -> Result<(Convention, Convention), String> {
+        let (i,) = c.__getnewargs__().map_err(msg)?;
+        let fresh = Convention::new_py(i).map_err(msg)?;
+        let mut out = fresh;
+        Python::with_gil(|py| {
+            let st = c.__getstate__(py).map_err(msg)?;
+            out.__setstate__(st).map_err(msg)
+        })?;
+        Ok((fresh, out))
+    }
+    pub fn modifier_pickle(m: &Modifier) -> Result<(Modifier, Modifier), String> {
+        let (i,) = m.__getnewargs__().map_err(msg)?;
+        let fresh = Modifier::new_py(i).map_err(msg)?;
+        let mut out = fresh;
+        Python::with_gil(|py| {
+            let st = m.__getstate__(py).map_err(msg)?;
+            out.__setstate__(st).map_err(msg)
+        })?;
+        Ok((fresh, out))
+    }
+    pub fn convention_new(i: u8) -> Result<Convention, String> {
+        Convention::new_py(i).map_err(msg)
+    }
+    pub fn modifier_new(i: u8) -> Result<Modifier, String> {
+        Modifier::new_py(i).map_err(msg)
+    }
+    pub fn modifier_str(m: Modifier) -> String {
+        _get_modifier_str(m)
+    }
+}
